@@ -89,7 +89,7 @@ def wait_loop_decisions(ctx, repo, d, hd):
             for some in (True, False):
                 for found in (True, False):
                     interp = Interp(repo)
-                    me = Obj(d.cls, {FLAG: found, spas_attr: [Opaque("descriptor")] if some else []})
+                    me = Obj(repo.cls("GeckoAsyncLocator"), {FLAG: found, spas_attr: [Opaque("descriptor")] if some else []})
 
                     def ahook(it, base, attr, me=me, in_time=in_time, enough=enough):
                         if base is me and attr == "age":
